@@ -2,8 +2,12 @@ package main
 
 import (
 	"fmt"
+	"encoding/json"
+	"io"
 	"math/rand"
 	"os"
+	"os/exec"
+	"path/filepath"
 	"sort"
 	"strings"
 	"sync"
@@ -12,7 +16,68 @@ import (
 	"github.com/mattn/anko/env"
 )
 
-func init() { streams["envconc"] = streamEnvConc }
+func init() {
+	streams["envconc"] = streamEnvConcIsolated
+	streams["envconc-inner"] = streamEnvConc
+}
+
+// The scenarios run in child processes, one per phase: a fatal runtime error of the implementation ("concurrent map
+// iteration and map write", a panic while a lock is held) ends the child, and the parent reports it with the phase as input.
+var envConcPhases = []struct{ name, what string }{
+	{"lin", "2-3 goroutines x 2-3 operations on one shared scope, released together (all sequential orders enumerated)"},
+	{"firsts", "4 goroutines: first DefineType + Define on a fresh scope"},
+	{"snapshot", "writer: Define(v_i), DefineType(t_i) on one scope; readers: Copy / DeepCopy and symbol listings"},
+	{"stress", "8 goroutines x 400 random operations incl. String, DefineType, Type, DeepCopy, symbol listings on one scope"},
+}
+
+func streamEnvConcIsolated(o *Out, r *rand.Rand, n int, thorough bool) {
+	for _, ph := range envConcPhases {
+		dir := filepath.Join(o.dir, "phase-"+ph.name)
+		args := []string{"envconc-inner", "-seed", fmt.Sprint(o.Sum.Seed), "-n", fmt.Sprint(n), "-out", dir}
+		if thorough {
+			args = append(args, "-thorough")
+		}
+		cmd := exec.Command(os.Args[0], args...)
+		cmd.Env = append(os.Environ(), "VERIF_ENVCONC_PHASE="+ph.name)
+		tb := &tailBuf{}
+		cmd.Stderr = io.MultiWriter(tb, os.Stderr)
+		err := cmd.Run()
+		var sum Summary
+		b, rerr := os.ReadFile(filepath.Join(dir, "summary.json"))
+		if rerr == nil {
+			rerr = json.Unmarshal(b, &sum)
+		}
+		if err != nil || rerr != nil {
+			head := tb.String()
+			key := "env-fatal"
+			if i := strings.Index(head, "fatal error: "); i >= 0 {
+				key += ":" + firstWords(head[i+len("fatal error: "):], 6)
+			} else if i := strings.Index(head, "panic: "); i >= 0 {
+				key += ":" + firstWords(head[i+len("panic: "):], 6)
+			}
+			o.Fail(Failure{Oracle: "no-fatal-error", Key: key, Input: ph.what,
+				Detail: fmt.Sprintf("the process running this scenario died (%v): %s", err, head)})
+			continue
+		}
+		if o.Sum.Rule == "" {
+			o.Sum.Rule = sum.Rule
+		}
+		o.Sum.Evaluations += sum.Evaluations
+		o.Sum.Skipped += sum.Skipped
+		mergeHist(o.Sum.Hist, sum.Hist)
+		for _, f := range sum.Failures {
+			o.Fail(f)
+		}
+		for _, sm := range sum.Samples {
+			if len(o.Sum.Samples) < 4 {
+				o.Sum.Samples = append(o.Sum.Samples, sm)
+			}
+		}
+		for i := 0; i < sum.Distinct; i++ {
+			o.hashes[fmt.Sprintf("%s-%d", ph.name, i)] = true
+		}
+	}
+}
 
 type cop struct {
 	kind string // define set get delete copy symbols delglobal defglobal
@@ -145,13 +210,15 @@ func streamEnvConc(o *Out, r *rand.Rand, n int, thorough bool) {
 	o.Sum.Rule = "2-3 goroutines x 2-3 operations (define, set, get, delete, delete-nearest, define-global, copy, symbol listing) on one shared scope with a read-only parent, " +
 		"released together and repeated; each observed outcome (every return value + final state) must be produced by some one-at-a-time order that respects each goroutine's own " +
 		"order (all merges enumerated on fresh environments); plus an unchecked-result stress for the race detector; non-trivial = all; distinct by operation lists"
+	phase := os.Getenv("VERIF_ENVCONC_PHASE")
+	on := func(p string) bool { return phase == "" || phase == p }
 	names := []string{"a", "b", "p"}
 	kinds := []string{"define", "define", "set", "get", "get", "delete", "copy", "symbols", "delglobal", "defglobal", "deftype", "deftype", "type", "types", "string"}
 	reps := 40
 	if thorough {
 		reps = 200
 	}
-	for it := 0; it < n; it++ {
+	for it := 0; it < n && on("lin"); it++ {
 		nt := 2 + r.Intn(2)
 		threads := make([][]cop, nt)
 		for t := range threads {
@@ -215,6 +282,9 @@ func streamEnvConc(o *Out, r *rand.Rand, n int, thorough bool) {
 	if thorough {
 		firsts = 30000
 	}
+	if !on("firsts") {
+		firsts = 0
+	}
 	for round := 0; round < firsts; round++ {
 		_, shared := freshShared()
 		var wg sync.WaitGroup
@@ -250,6 +320,9 @@ func streamEnvConc(o *Out, r *rand.Rand, n int, thorough bool) {
 	}
 	const K = 120
 	tornReported := false
+	if !on("snapshot") {
+		rounds = 0
+	}
 	for round := 0; round < rounds && !tornReported; round++ {
 		_, shared := freshShared()
 		shared.Delete("a")
@@ -268,15 +341,24 @@ func streamEnvConc(o *Out, r *rand.Rand, n int, thorough bool) {
 						return
 					default:
 					}
-					var c *env.Env
-					if g == 2 {
-						c = shared.DeepCopy()
+					var vs, ts []string
+					var a, b int
+					var bad bool
+					if g == 1 {
+						// a symbol listing taken directly: the names v_0..v_(a-1) for some a, nothing else
+						vs = shared.GetValueSymbols()
+						a = len(vs)
 					} else {
-						c = shared.Copy()
+						var c *env.Env
+						if g == 2 {
+							c = shared.DeepCopy()
+						} else {
+							c = shared.Copy()
+						}
+						vs, ts = c.GetValueSymbols(), c.GetTypeSymbols()
+						a, b = len(vs), len(ts)
+						bad = !(b <= a && a <= b+1)
 					}
-					vs, ts := c.GetValueSymbols(), c.GetTypeSymbols()
-					a, b := len(vs), len(ts)
-					bad := !(b <= a && a <= b+1)
 					have := map[string]bool{}
 					for _, x := range vs {
 						have[x] = true
@@ -297,7 +379,7 @@ func streamEnvConc(o *Out, r *rand.Rand, n int, thorough bool) {
 					mu.Lock()
 					copies++
 					if bad && torn == "" {
-						torn = fmt.Sprintf("copy holds %d values and %d types (values %v..., types %v...)", a, b, firstN(vs, 3), firstN(ts, 3))
+						torn = fmt.Sprintf("copy / listing %d holds %d values and %d types (values %v..., types %v...)", g, a, b, firstN(vs, 3), firstN(ts, 3))
 					}
 					mu.Unlock()
 				}
@@ -318,6 +400,9 @@ func streamEnvConc(o *Out, r *rand.Rand, n int, thorough bool) {
 		}
 	}
 	// stress for the race detector: many goroutines hammering one scope (results unchecked)
+	if !on("stress") {
+		return
+	}
 	parent, shared := freshShared()
 	_ = parent
 	var wg sync.WaitGroup
